@@ -222,6 +222,46 @@ def h_backward(env, N, prog, record):
 h_backward.uses_rng = True
 
 
+def h_reuse_after_backward(env, N, r, qubits, record):
+    """history on ONE circuit object: backward with a supplied record, then forward on a fresh state -- the second
+    forward must still be the direct measurement (record, log2prob, state)"""
+    M = Mods(env)
+    gs, ps = sym_state(env, N)
+    g0, p0 = sym_state(env, N, 'b')
+    circ = M.ci.Circuit(N)
+    circ.measure(*qubits)
+    warm = mk_state(M, env, g0, p0, 0)
+    env.run(lambda: circ.backward(warm, measure_result=list(record)))      # may legitimately raise for an impossible record
+    A = mk_state(M, env, gs, ps, r)
+    B = mk_state(M, env, gs, ps, r)
+    env.reseed()
+    ra = env.run(lambda: circ.forward(A))
+    env.reseed()
+    rb = env.run(lambda: B.measure(zlist(M, env, N, qubits)))
+    env.assume(env.identify_streams(), 'both runs draw the same coins')
+    env.goal('no_exception', b_not(b_or(ra.raised, rb.raised)))
+    if ra.value is None or rb.value is None:
+        return
+    out, lp = rb.value
+    env.goal('rows', arr_eq(A.gs, B.gs))
+    env.goal('signs', arr_eq(A.ps, B.ps))
+    env.goal('rank', eq(A.r, B.r))
+    rec = circ.measure_result
+    env.goal('record_length', len(rec) == len(qubits))
+    if len(rec) == len(qubits):
+        for k in range(len(qubits)):
+            env.goal('record[%d]' % k, eq(rec[k], 1 - 2 * out[k]))
+    # and a second forward appends to the record in order (documented accumulation)
+    C2 = mk_state(M, env, gs, ps, r)
+    env.reseed()
+    rc = env.run(lambda: circ.forward(C2))
+    if rc.value is not None:
+        env.goal('second_forward_appends', len(circ.measure_result) == 2 * len(qubits))
+
+
+h_reuse_after_backward.uses_rng = True
+
+
 def jobs(tier):
     J = []
     thorough = tier == 'thorough'
@@ -249,6 +289,11 @@ def jobs(tier):
         for record in itertools.product((1, -1), repeat=k):
             if k <= 2 or thorough or record[0] == record[-1]:
                 J.append(dict(harness=('c14', 'h_backward'), params=dict(N=2, prog=prog, record=list(record)), timeout_s=600, cost=30, max_paths=3000))
+    for N in (1, 2):
+        for q in ([0],) if N == 1 else ([0], [1, 0], [0, 1]):
+            for record in itertools.product((1, -1), repeat=len(q)):
+                for r in (0, N):
+                    J.append(dict(harness=('c14', 'h_reuse_after_backward'), params=dict(N=N, r=r, qubits=list(q), record=list(record)), timeout_s=600, cost=30, max_paths=3000))
     # nothing added after a measurement moves in front of it: packing lemma with one measurement at every position
     for N in (2, 3):
         for n_ops in (2, 3):
